@@ -13,14 +13,23 @@
    meson-benchmark-prereq.  (A') the small graphs exported by BuildGraph_MC are pushed through the real
    manifest writer (NinjaBuild / NinjaBuildElement): a graph with a doubly produced path must be refused,
    any other graph must come back unchanged through ninja_ref.
+   (A'') ``specs/ninja/RuleFlavours_MC`` (rules in two flavours, plain `R` and response-file `R_RSP`; every queue of
+   <= 3 statements of three rule kinds under every threshold: the flavours the writer's counters select are exactly
+   the names the statements use, none may be left out, response-file variables sit exactly on `_RSP` statements);
+   its (queue, threshold) family goes through the real writer under ``MESON_RSP_THRESHOLD`` (``c04_rsp``).
 3. (B) the same trace spec on seeded random larger projects (odd names, subprojects, generators, unity,
    flat layout) and on the projects of ``test cases/common`` that configure in this sandbox (obligations for
-   `all` / test prerequisites taken from the introspection files).
+   `all` / test prerequisites taken from the introspection files).  A part of the random projects is configured
+   again with ``MESON_RSP_THRESHOLD`` placed inside the range of command-line lengths of one rule kind (compile,
+   link, static link) so that the manifest mixes both flavours of it; one project mixes them under the built-in
+   threshold (very long c_args / link_args / object lists).  Laws: RulesDefined, RspBound, RspUsed, FlavourBinds,
+   FlavourChoice (band around the threshold).
 """
 from __future__ import annotations
 
 import io
 import json
+import os
 import random
 import sys
 import threading
@@ -28,7 +37,7 @@ import typing as T
 from concurrent.futures import ProcessPoolExecutor
 
 from . import backend_views as bv
-from . import common, ninja_ref, projgen
+from . import c04_rsp, common, ninja_ref, projgen
 from .common import Check, MachineryError, SPECS, run_tlc
 
 PROP = 'C04'
@@ -68,7 +77,15 @@ def model_check(chk: Check, quick: bool) -> T.Tuple[T.Dict[str, T.Any], T.List[T
         except BaseException as e:
             err.append(e)
 
-    th = [threading.Thread(target=graphs), threading.Thread(target=family)]
+    def flavours() -> None:
+        try:
+            cfg = (SPECS / 'ninja' / 'RuleFlavours_MC.cfg').read_text()
+            out['flavours'] = run_tlc(SPECS / 'ninja', 'RuleFlavours_MC', cfg_text=cfg, collect=['rsp_family.json'],
+                                      timeout=1500, workers=4, allow_violation=False)
+        except BaseException as e:
+            err.append(e)
+
+    th = [threading.Thread(target=graphs), threading.Thread(target=family), threading.Thread(target=flavours)]
     for t in th:
         t.start()
     for t in th:
@@ -79,9 +96,39 @@ def model_check(chk: Check, quick: bool) -> T.Tuple[T.Dict[str, T.Any], T.List[T
     if 'graphs3' in out:
         chk.add_tlc('BuildGraph_MC[NE=3,MaxIns=1]', out['graphs3'])
     chk.add_tlc('ProjectModel_MC', out['family'])
+    chk.add_tlc('RuleFlavours_MC[MaxStmts=3,MaxLen=2]', out['flavours'])
     fam = json.loads(out['family'].collected['family.json'])
+    fam['rsp'] = json.loads(out['flavours'].collected['rsp_family.json'])
     graphs_ = json.loads(out['graphs'].collected['graphs.json'])
     return fam, graphs_
+
+
+def model_check_parts(chk: Check) -> T.List[T.Dict[str, T.Any]]:
+    """The conditional parts (small model, run first: its configurations parameterise the (B) jobs)."""
+    res = run_tlc(SPECS / 'ninja', 'ManifestParts_MC', collect=['parts_family.json'], timeout=1500, workers=4,
+                  allow_violation=False)
+    chk.add_tlc('ManifestParts_MC[MaxLinks=2]', res)
+    fam = json.loads(res.collected['parts_family.json'])
+    for c in fam:
+        for k in ('tools', 'dotfiles', 'linkers', 'compilers'):
+            c[k] = list(c[k]) if c[k] else []
+    return fam
+
+
+def pick_parts(fam: T.List[T.Dict[str, T.Any]], rnd: random.Random, dotfiles: T.Sequence[str], n: int) -> T.List[T.Dict[str, T.Any]]:
+    """n configurations realisable here (gcc dependency style) for a source tree with the given dot files; the first
+    has a link pool, the second coverage cleaners, and tools are preferred whose dot file is there."""
+    ok = [c for c in fam if c['depstyle'] == 'gcc' and sorted(c['dotfiles']) == sorted(dotfiles)]
+    rnd.shuffle(ok)
+    picks: T.List[T.Dict[str, T.Any]] = []
+    wants = [lambda c: c['max_links'] > 0 and c['tools'], lambda c: c['coverage'] and len(c['tools']) >= 2,
+             lambda c: c['max_links'] > 0 and c['coverage']]
+    for k in range(n):
+        want = wants[k % len(wants)]
+        cand = [c for c in ok if want(c) and c not in picks] or [c for c in ok if c not in picks]
+        if cand:
+            picks.append(cand[0])
+    return picks
 
 
 # ---------------------------------------------------------------------------
@@ -139,6 +186,11 @@ def signature(case: T.Dict[str, T.Any], v: T.Dict[str, T.Any]) -> str:
         if clause == 'WriterAcceptedDuplicate':
             return f"{clause}:{v['detail'][0]}"
         return f"{clause}@{json.dumps(case['intended']['edges'], sort_keys=True)[:300]}"
+    if kind == 'rspwriter':
+        # normalised cause: the situation of the queue (are both flavours of a kind in use) and the flavour(s) named
+        situation = 'mixed' if case['intended'].get('mixed') else 'unmixed'
+        flav = '+'.join(sorted({'rsp-flavour' if d.endswith('_RSP') else 'plain-flavour' for d in v['detail']}))
+        return f"{clause}@rspwriter:{situation}-queue:{flav}"
     if kind == 'corpus':
         return f"{clause}@corpus:{case['info'].get('name')}:{'|'.join(sorted(v['detail'])[:3])[:200]}"
     tag = case['info'].get('tag', '')
@@ -149,7 +201,11 @@ def signature(case: T.Dict[str, T.Any], v: T.Dict[str, T.Any]) -> str:
         sp_runs = {t['name'] for t in case['p']['targets'] if t['kind'] in ('run', 'alias') and t['sp']}
         if all(q in sp_runs for q in v['detail']):
             return 'Closed:bare-name-of-subproject-run-target-as-input'
-    opts = ''.join(sorted(case['info'].get('extra_args', [])))
+    opts = ''.join(sorted(case['info'].get('args') or case['info'].get('extra_args', [])))
+    if case['info'].get('parts_in'):
+        opts += ';tools=' + '+'.join(case['parts']['tools']) + ';dotfiles=' + '+'.join(case['parts']['dotfiles'])
+    if case['info'].get('threshold', -1) >= 0:
+        opts += f";MESON_RSP_THRESHOLD={case['info']['threshold']}"
     return f"{clause}@{short_project(case['p'])}{opts}:{'|'.join(sorted(v['detail'])[:3])[:200]}"
 
 
@@ -167,7 +223,25 @@ def _tag(job: T.Dict[str, T.Any], case: T.Dict[str, T.Any]) -> T.Dict[str, T.Any
 
 
 def _run_job(job: T.Dict[str, T.Any]) -> T.Dict[str, T.Any]:
-    return _tag(job, bv.run_case(job))
+    case = _tag(job, bv.run_case(job))
+    # configured under the built-in response-file threshold, with the gcc / ar toolchain of the sandbox
+    case['rsp'] = c04_rsp.rsp_field(None)
+    # conditional parts: the options are those on the command line (a corpus project may set its own defaults: not
+    # known), no tools were placed (those of the sandbox itself count), dot files only where we wrote the tree
+    corpus = job['kind'] == 'corpus'
+    case['parts'] = c04_rsp.parts_field(job.get('extra_args', []), None if corpus else c04_rsp.system_tools(),
+                                        None if corpus else [], options_known=not corpus)
+    return case
+
+
+def _run_sweep(job: T.Dict[str, T.Any]) -> T.List[T.Dict[str, T.Any]]:
+    """One project under the built-in threshold and under thresholds inside its own range of command lengths."""
+    cases = c04_rsp.run_sweep(job)
+    for c in cases:
+        _tag(job, c)
+        if job.get('rsp_default'):
+            c['info']['rsp_default'] = job['rsp_default']
+    return cases
 
 
 def pick_family(fam: T.Dict[str, T.Any], rnd: random.Random, n: int, exhaustive: bool,
@@ -230,6 +304,10 @@ def shared_genlist_project(layout: str) -> T.Dict[str, T.Any]:
                               'genlists': [{'files': ['a.in', 'b.in']}, {'files': ['c.in']}, {'files': ['d.in']}]})
 
 
+# one `meson setup` of a generated project takes ~3 s on an idle box; the limit only guards against a hang (a shared,
+# heavily loaded box has needed minutes)
+PROJ_TIMEOUT = 1500
+
 # base options that add statements / targets to the manifest
 BASE_OPTION_SETS: T.List[T.List[str]] = [[], [], ['-Db_coverage=true'], ['-Db_lto=true'], ['-Db_pch=false'],
                                         ['-Db_coverage=true', '-Db_lto=true']]
@@ -242,9 +320,16 @@ def main(chk: Check) -> None:
     n_random = 24 if quick else 400
     n_corpus = 30 if quick else 10000
     n_writer = 10000 if quick else 10 ** 9
+    n_sweep = 6 if quick else 80            # random projects configured again under thresholds inside their own range
+    n_thresholds = 2 if quick else 3
+    n_rspwriter = 1200 if quick else 10 ** 9   # non-mixed (queue, threshold) pairs; the mixed ones always all
+    # the built-in threshold is part of the configured space: never inherit one from the caller
+    os.environ.pop('MESON_RSP_THRESHOLD', None)
     chk.rule = ('A: abstract two-target projects of the TLC family (seeded sample, a quarter each: colliding, non-colliding '
                 'same-name, with tests, any), A\': every graph of <=2 edges through the real manifest writer, '
-                'B: seeded random projects of 3-14 targets and the projects of test cases/common. Non-trivial = a '
+                'A\'\': every queue of <=3 statements x threshold of RuleFlavours_MC through the real writer, '
+                'B: seeded random projects of 3-14 targets (some of them again under response-file thresholds inside '
+                'their own range of command lengths) and the projects of test cases/common. Non-trivial = a '
                 'configured manifest with >= 12 edges, or a project the rule book says must be rejected, or a writer graph '
                 'with a duplicated path (distinct by abstract project / graph).')
     import time
@@ -252,16 +337,26 @@ def main(chk: Check) -> None:
     stages: T.Dict[str, float] = {}
     # (B) jobs do not depend on the TLC output: they are configured while the model checking runs
     bjobs: T.List[T.Dict[str, T.Any]] = []
+    sjobs: T.List[T.Dict[str, T.Any]] = []
     for k in range(n_random):
         r2 = random.Random(chk.seed * 7919 + k)
         p = projgen.random_project(r2, n_targets=r2.randint(3, 14), installs=False, options=False, custom_inputs=True,
                                    alias_runs=True)
-        bjobs.append({'id': f'B{k}', 'kind': 'proj', 'p': p, 'extra_args': r2.choice(BASE_OPTION_SETS)})
-    bjobs.append({'id': 'P0', 'kind': 'proj', 'p': pipe_name_project(), 'tag': 'target-name-with-pipe'})
-    bjobs.append({'id': 'O0', 'kind': 'proj', 'p': odd_names_project('mirror'), 'extra_args': ['-Db_coverage=true']})
-    bjobs.append({'id': 'O1', 'kind': 'proj', 'p': odd_names_project('flat')})
-    bjobs.append({'id': 'G0', 'kind': 'proj', 'p': shared_genlist_project('mirror')})
-    bjobs.append({'id': 'G1', 'kind': 'proj', 'p': shared_genlist_project('flat'), 'extra_args': ['-Db_coverage=true']})
+        job = {'id': f'B{k}', 'kind': 'proj', 'p': p, 'extra_args': r2.choice(BASE_OPTION_SETS), 'timeout': PROJ_TIMEOUT}
+        if k < n_sweep:
+            dots = r2.choice([[], ['clang-format'], ['clang-tidy'], ['clang-format', 'clang-tidy']])
+            sjobs.append(dict(job, n_thresholds=n_thresholds, rot=k + chk.seed, dotfiles=dots, parts_rnd=r2))
+        else:
+            bjobs.append(job)
+    bjobs.append({'id': 'P0', 'kind': 'proj', 'p': pipe_name_project(), 'tag': 'target-name-with-pipe', 'timeout': PROJ_TIMEOUT})
+    bjobs.append({'id': 'O0', 'kind': 'proj', 'p': odd_names_project('mirror'), 'extra_args': ['-Db_coverage=true'], 'timeout': PROJ_TIMEOUT})
+    bjobs.append({'id': 'O1', 'kind': 'proj', 'p': odd_names_project('flat'), 'timeout': PROJ_TIMEOUT})
+    bjobs.append({'id': 'G0', 'kind': 'proj', 'p': shared_genlist_project('mirror'), 'timeout': PROJ_TIMEOUT})
+    bjobs.append({'id': 'G1', 'kind': 'proj', 'p': shared_genlist_project('flat'), 'extra_args': ['-Db_coverage=true'], 'timeout': PROJ_TIMEOUT})
+    for k, layout in enumerate(['mirror'] if quick else ['mirror', 'flat']):
+        p, files = c04_rsp.rsp_default_project(layout)
+        sjobs.append({'id': f'D{k}', 'kind': 'proj', 'p': p, 'files': files, 'rsp_default': layout, 'timeout': PROJ_TIMEOUT,
+                      'n_thresholds': 0 if quick else 3, 'rot': k})
     dirs = bv.corpus_dirs()
     if len(dirs) > n_corpus:
         dirs = sorted(rnd.sample(dirs, n_corpus))
@@ -271,8 +366,15 @@ def main(chk: Check) -> None:
     cases: T.List[T.Dict[str, T.Any]] = []
     with ProcessPoolExecutor(max_workers=common.NCPU) as ex:
         bfut = [ex.submit(_run_job, j) for j in bjobs]
+        # the small model of the conditional parts runs first: its configurations parameterise the sweep jobs
+        parts_fam = model_check_parts(chk)
+        stages['model_check_parts'] = round(time.time() - t0, 1)
+        for j in sjobs:
+            if 'parts_rnd' in j:
+                j['parts_cfgs'] = pick_parts(parts_fam, j.pop('parts_rnd'), j['dotfiles'], n_thresholds)
+        sfut = [ex.submit(_run_sweep, j) for j in sjobs]
         fam, graphs = model_check(chk, quick)
-        stages['model_check'] = round(time.time() - t0, 1)
+        stages['model_check'] = round(time.time() - t0 - stages['model_check_parts'], 1)
         chk.extra['family_sizes'] = {'F1': len(fam['f1']), 'F2': len(fam['f2']), 'F3': len(fam['f3']), 'F4': len(fam['f4']), 'F5': len(fam['f5']),
                                      'writer_graphs': len(graphs)}
         if n_writer < len(graphs):
@@ -286,18 +388,30 @@ def main(chk: Check) -> None:
             if family != 'F5':
                 p['unity'] = rnd.choice(['off', 'off', 'on'])
             jobs.append({'id': f'A{k}', 'kind': 'proj', 'p': p, 'family': family, 'expect': x,
-                         'extra_args': rnd.choice(BASE_OPTION_SETS)})
+                         'extra_args': rnd.choice(BASE_OPTION_SETS), 'timeout': PROJ_TIMEOUT})
+        rfam = [f for f in fam['rsp'] if f['mixed']]
+        rest = [f for f in fam['rsp'] if not f['mixed']]
+        rfam += rest if n_rspwriter >= len(rest) else rnd.sample(rest, n_rspwriter)
+        chk.extra['family_sizes'].update({'rsp_queues': len(fam['rsp']), 'rsp_queues_mixed': sum(1 for f in fam['rsp'] if f['mixed']),
+                                          'rsp_queues_run': len(rfam)})
+        rfut = ex.submit(c04_rsp.writer_cases, rfam)
         wjobs = [(lo, graphs[lo:lo + 1500]) for lo in range(0, len(graphs), 1500)]
         wfut = [ex.submit(_writer_worker, j) for j in wjobs]
         for case in ex.map(_run_job, jobs, chunksize=1):
             cases.append(case)
         for f in bfut:
             cases.append(f.result())
+        sweep_ids: T.Set[str] = set()
+        for f in sfut:
+            for c in f.result():
+                cases.append(c)
+                sweep_ids.add(c['id'])
         wcases: T.List[T.Dict[str, T.Any]] = []
         for f in wfut:
             wcases.extend(f.result())
+        rcases = rfut.result()
 
-    stages['configure+writer'] = round(time.time() - t0 - stages['model_check'], 1)
+    stages['configure+writer'] = round(time.time() - t0 - stages['model_check'] - stages['model_check_parts'], 1)
     # bookkeeping
     skipped = [c['info'].get('name') for c in cases if c['kind'] == 'corpus' and not c['configured']]
     done_cases = [c for c in cases if not (c['kind'] == 'corpus' and not c['configured'])]
@@ -313,7 +427,28 @@ def main(chk: Check) -> None:
     for c in wcases:
         if not c['configured']:
             chk.nontriv(json.dumps(c['intended']['edges'], sort_keys=True))
-    chk.evaluations += len(done_cases) + len(wcases)
+    # coverage of the two-flavour class: manifests in which both flavours of one rule kind are in use
+    mixed_proj = [c for c in done_cases if c['info'].get('mixed')]
+    for c in mixed_proj:
+        chk.nontriv(json.dumps([c['p'], c['info'].get('threshold')], sort_keys=True))
+    for c in rcases:
+        if c['info'].get('mixed'):
+            chk.nontriv(json.dumps(c['intended'], sort_keys=True))
+    chk.extra['rsp'] = {
+        'sweep_cases': len(sweep_ids), 'project_manifests_mixing_flavours': len(mixed_proj),
+        'mixed_kinds_seen': sorted({k for c in mixed_proj for k in c['info']['mixed']}),
+        'mixed_under_builtin_threshold': sum(1 for c in mixed_proj if c['info'].get('threshold', -1) < 0),
+        'writer_queues': len(rcases), 'writer_queues_mixing_flavours': sum(1 for c in rcases if c['info'].get('mixed')),
+    }
+    pc = [c['parts'] for c in done_cases if c['configured'] and c['info'].get('parts_in')]
+    chk.extra['parts'] = {'configurations_run': len(pc), 'with_link_pool': sum(1 for g in pc if g['max_links'] > 0),
+                          'with_coverage': sum(1 for g in pc if g['coverage']),
+                          'tool_sets': sorted({'+'.join(g['tools']) for g in pc}),
+                          'dotfile_sets': sorted({'+'.join(g['dotfiles']) for g in pc})}
+    if not mixed_proj or not chk.extra['rsp']['mixed_under_builtin_threshold'] or not chk.extra['rsp']['writer_queues_mixing_flavours']:
+        raise MachineryError('the configured space does not contain a manifest mixing both flavours of a rule '
+                             f"(explicit thresholds, built-in threshold, writer level): {chk.extra['rsp']}")
+    chk.evaluations += len(done_cases) + len(wcases) + len(rcases)
     for c in done_cases[:: max(1, len(done_cases) // 4)][:4]:
         chk.sample({'id': c['id'], 'project': short_project(c['p']) if c['kind'] == 'proj' else c['info'].get('name'),
                     'configured': c['configured'], 'edges': c['info'].get('edges'), 'error': c['info'].get('error', '')[:160],
@@ -322,11 +457,11 @@ def main(chk: Check) -> None:
         chk.sample({'id': c['id'], 'intended': c['intended']['edges'], 'written': c['info']['text'], 'accepted': c['configured']},
                    limit=8)
 
-    by_id = {c['id']: c for c in done_cases + wcases}
+    by_id = {c['id']: c for c in done_cases + wcases + rcases}
     bad = bv.judge_cases(chk, 'TraceBuildGraph', done_cases, 'projects', chunk=300)
-    bad += bv.judge_cases(chk, 'TraceBuildGraph', wcases, 'writer', chunk=25000)
-    chk.traces += len(done_cases) + len(wcases)
-    stages['judge'] = round(time.time() - t0 - stages['model_check'] - stages['configure+writer'], 1)
+    bad += bv.judge_cases(chk, 'TraceBuildGraph', wcases + rcases, 'writer', chunk=25000)
+    chk.traces += len(done_cases) + len(wcases) + len(rcases)
+    stages['judge'] = round(time.time() - t0 - stages['model_check'] - stages['model_check_parts'] - stages['configure+writer'], 1)
     chk.extra['stage_wall_s'] = stages
     for v in bad:
         c = by_id[v['id']]
@@ -334,7 +469,7 @@ def main(chk: Check) -> None:
             raise MachineryError(f"meson rejected a project the generator model considers valid ({c['id']}): "
                                  f"{c['info'].get('error')} :: {json.dumps(c['p'])[:600]}")
         detail = {'verdict': v, 'kind': c['kind'], 'project': c['p'], 'info': c['info']}
-        if c['kind'] == 'writer':
+        if c['kind'] in ('writer', 'rspwriter'):
             detail['intended'] = c['intended']
         if c['kind'] == 'corpus':
             detail['srcdir'] = c['info'].get('name')
@@ -348,6 +483,13 @@ def main(chk: Check) -> None:
         'Exists = lexists() of non-produced inputs right after `meson setup`; depfile/dyndep edges are not modelled',
         'the writer-level binding uses NinjaBuild/NinjaBuildElement directly (implicit outputs are only emitted for MSVC '
         'debug files, unreachable with gcc)',
+        'response files: rsp-capable rule kinds are those of the gcc/ar toolchain of the sandbox (c/cpp compile and link, '
+        'static link); the writer compares an estimate of the command line with the threshold, so FlavourChoice is judged '
+        'with a band (threshold -/+ 64+T/8 bytes; built-in threshold: plain below 4 KiB, response file from 32 KiB on); '
+        'gcc-syntax response files only (MSVC / TASKING / NASM quoting styles are not reachable here)',
+        'conditional parts: tools are empty executables placed in front of PATH (meson only looks them up at configure time); '
+        'the msvc dependency style of ManifestParts_MC is model-checked but not realisable here; on corpus projects the '
+        'option- and tool-dependent laws are not judged (their own default_options / dot files are not projected)',
     ]
 
 
@@ -356,6 +498,18 @@ def replay(chk: Check, data: T.Dict[str, T.Any]) -> None:
     if det['kind'] == 'writer':
         cases = _writer_worker((0, [det['intended']]))
         cases[0]['id'] = det['verdict']['id']
+    elif det['kind'] == 'rspwriter':
+        cases = c04_rsp.writer_cases([det['intended']])
+        cases[0]['id'] = det['verdict']['id']
+    elif 'threshold' in det['info']:
+        p = projgen.normalize(det['info'].get('p_full') or det['project'])
+        job = {'id': det['verdict']['id'], 'kind': 'proj', 'p': p, 'extra_args': det['info'].get('extra_args', []),
+               'thresholds': [det['info']['threshold']], 'parts_in': det['info'].get('parts_in'),
+               'dotfiles': det['info'].get('dotfiles', [])}
+        if det['info'].get('rsp_default'):
+            job['rsp_default'] = det['info']['rsp_default']
+            job['p'], job['files'] = c04_rsp.rsp_default_project(det['info']['rsp_default'])
+        cases = _run_sweep(job)
     elif det['kind'] == 'corpus':
         dd = common.REPO / 'test cases' / 'common' / det['srcdir']
         cases = [_run_job({'id': det['verdict']['id'], 'kind': 'corpus', 'p': None, 'srcdir': str(dd), 'name': dd.name})]
@@ -368,7 +522,7 @@ def replay(chk: Check, data: T.Dict[str, T.Any]) -> None:
     bad = bv.judge_cases(chk, 'TraceBuildGraph', cases, 'replay')
     for v in bad:
         chk.violation(signature(cases[0], v), {'verdict': v, 'kind': cases[0]['kind'], 'project': cases[0]['p'],
-                                               'info': cases[0]['info'], 'intended': cases[0]['intended'],
+                                               'info': cases[0]['info'], 'intended': cases[0].get('intended'),
                                                'srcdir': cases[0]['info'].get('name')})
 
 
